@@ -99,6 +99,7 @@ def run_set(ctx, item, ninputs):
     witness = dict(set=idx, seed=ctx.seed)
     # the same inputs for every base
     inputs = {}
+    busy = {}
     for b in bases:
         if b.error:
             ctx.count("bases_failed[%s]" % b.name)
@@ -109,8 +110,19 @@ def run_set(ctx, item, ninputs):
         for ti, t in enumerate(b.msgs):
             if ti not in inputs:
                 inputs[ti] = W.des_inputs(R, t, ninputs)
+            if ti not in busy:
+                # an earlier message that leaves every array full and every bit set: what a reused destination object holds
+                try:
+                    busy[ti] = M.encode(t, M.max_value(t))
+                except Exception:
+                    busy[ti] = b""
             for k, (label, data) in enumerate(inputs[ti]):
-                vectors.append(dict(op="des", ti=ti, data=data, prior=k % 3 if b.lang == "c" else 0, null_when_empty=(k % 2 == 0)))
+                # the value decoded never depends on what the destination held before: C starts from zeroed / 0xFF / PRNG-filled
+                # objects or from the object an earlier decode left; C++ from a fresh object or from one an earlier decode left
+                prior = k % 4 if b.lang == "c" else (3 if (b.lang == "cpp" and k % 2) else 0)
+                vectors.append(dict(op="des", ti=ti, data=data, prior=prior, prior_data=busy[ti], null_when_empty=(k % 2 == 0)))
+                if prior == 3:
+                    ctx.count("des_into_reused_object[%s]" % b.lang)
                 meta.append((t, label, data))
         results, exit_reports, inc = b.run(vectors)
         if inc:
